@@ -145,7 +145,6 @@ func (d *Defs) sym(fn *ssa.Function) (*SpecSym, error) {
 		v := Const(fmt.Sprintf("x%d!%s", i, sanitizeIdent(p.Name())), ps)
 		s.Params = append(s.Params, v)
 		s.ArgSorts = append(s.ArgSorts, ps)
-		d.e.noteRange(v, p.Type())
 		guards = append(guards, d.e.rangeFact(v, p.Type()))
 	}
 	s.Guard = And(guards...)
@@ -162,6 +161,7 @@ func (d *Defs) sym(fn *ssa.Function) (*SpecSym, error) {
 	}
 	for i, p := range fn.Params {
 		fr.vals[p] = &Val{T: s.Params[i], Typ: p.Type()}
+		fr.noteRange(s.Params[i], p.Type())
 	}
 	if err := fr.run(); err != nil {
 		delete(d.syms, fn)
